@@ -32,6 +32,7 @@ type Result struct {
 	Fingerprints []uint64                  `json:"fingerprints"`
 	Found        []Found                   `json:"found"`
 	CapHit       bool                      `json:"cap_hit"`
+	Stopped      string                    `json:"stopped,omitempty"`
 	RunHashes    map[int64]uint64          `json:"run_hashes,omitempty"`
 	Scenarios    map[int64]json.RawMessage `json:"scenarios,omitempty"`
 	WallS        float64                   `json:"wall_s"`
@@ -52,6 +53,9 @@ type ReplayFile struct {
 	To       int             `json:"minimised_to_size"`
 	CodeRev  string          `json:"code_rev,omitempty"`
 }
+
+// StopExploring lets a worlds package end the exploration early (see Result.Stopped).
+var StopExploring func() bool
 
 // RunSeed derives the seed of run i from VERIF_SEED.
 func RunSeed(seed uint64, i int64) uint64 { return Mix(Mix(seed, 0x51ed), uint64(i)) }
@@ -164,6 +168,10 @@ func WorkerMain(t *testing.T, worlds map[string]World, selftest func() error) {
 			res.CapHit = true
 			break
 		}
+		if StopExploring != nil && StopExploring() {
+			res.Stopped = "a library call had to be abandoned (it did not return); exploration of this worker stopped after recording the violation"
+			break
+		}
 		seed := RunSeed(job.Seed, i)
 		sc := w.Gen(seed, job.Tier)
 		if job.Progress != "" {
@@ -186,9 +194,13 @@ func WorkerMain(t *testing.T, worlds map[string]World, selftest func() error) {
 			from := sc.Size()
 			min := Minimise(env, sc, v.Clause, v.Key, 3000, time.Now().Add(20*time.Second))
 			mv := HasClause(SafeRun(env, min, nil), v.Clause, v.Key)
-			if mv == nil { // must not happen (Minimise only accepts failing candidates)
-				res.Error = fmt.Sprintf("minimised scenario of run %d does not fail clause %s any more (nondeterminism in harness?)", i, v.Clause)
+			if mv == nil {
+				// the minimised form does not reproduce: fall back to the scenario as generated
 				min = sc
+				mv = HasClause(SafeRun(env, min, nil), v.Clause, v.Key)
+			}
+			if mv == nil {
+				res.Error = fmt.Sprintf("run %d fails clause %s/%s once but not when executed again (nondeterminism in the harness or in a wall-clock watchdog)", i, v.Clause, v.Key)
 				mv = &v
 			}
 			js, _ := json.Marshal(min)
